@@ -206,7 +206,7 @@ def _refine_bound(mod, rep, f, prec):
             rep.fail("GSRFS", "%s#refine-reset" % f.name, "correction solve is not inside a loop", c.loc, f.name)
             continue
         h, body = lp
-        phis = [i for i in f.blocks[h].insts if i.op == "phi" and i.ty == "i32"]
+        phis = [i for i in f.blocks[h].insts if i.op == "phi" and i.ty in ("i32", "i64")]
         ok = False
         for ph in phis:
             for o, b in zip(ph.ops, ph.inb):
